@@ -815,6 +815,17 @@ def write_evidence(prop, tier, seed, hs, results, violations, known_lines, wall,
             if len(samples) < 12 and p["kind"] == "cover":
                 samples.append({"harness": h.name, "witness": p["label"],
                                 "satisfying_assignment_bytes": p["values"]})
+    # written-out cases: the solver queries themselves (domain, expectation, satisfied witnesses, size)
+    for row in harness_rows:
+        if len(samples) >= 8:
+            break
+        if row["status"] in ("SUCCESSFUL", "FAILED"):
+            samples.append({"solver_query": row["harness"], "domain": row["domain"],
+                            "expected_outcome": row["expect"], "verdict": row["status"],
+                            "witnesses_satisfied": [k for k, v in row["witnesses"].items() if v == "SATISFIED"],
+                            "program_steps": row["cbmc"].get("steps"),
+                            "sat_variables": row["cbmc"].get("variables"),
+                            "sat_clauses": row["cbmc"].get("clauses")})
     if not samples:
         samples = [{"harness": h.name, "domain": h.desc} for h in hs[:5]]
     ev = {
